@@ -221,7 +221,8 @@ def run(ck):
     chunks = [progs[i:i + per_tu] for i in range(0, len(progs), per_tu)]
     cv = vlib.REPO + "/src/Exception/ContractViolation.cxx"
     gdir = os.path.join(vlib.VERIF, "harness", "C17")
-    jobs = [("c17idx1", ["C17/indices.cxx", cv], ("-DC17_PART=1",)), ("c17idx2", ["C17/indices.cxx", cv], ("-DC17_PART=2",))]
+    jobs = [("c17idx1", ["C17/indices.cxx", cv], ("-DC17_PART=1",)), ("c17idx2", ["C17/indices.cxx", cv], ("-DC17_PART=2",)),
+            ("c17idx3", ["C17/indices.cxx", cv], ("-DC17_PART=3",))]
     for i, ch in enumerate(chunks):
         src = os.path.join(ck.work, "gen_%d.cxx" % i)
         ck.write("gen_%d.cxx" % i, c17gen.cxx_file(ch))
@@ -292,7 +293,7 @@ def run(ck):
             return None
         ck.lean_violations(res, search)
     # ---- (a) index maps
-    cov_a = index_maps(ck, [bins["c17idx1"], bins["c17idx2"]], driver)
+    cov_a = index_maps(ck, [bins["c17idx1"], bins["c17idx2"], bins["c17idx3"]], driver)
     if ck.tier == "thorough" and res.ok:
         for m, log in ck.leanchecker([PROPS_A]):
             ck.violation("leanchecker:" + m, "leanchecker rejects " + m, {"log": log}, False)
